@@ -31,6 +31,7 @@ def run(ctx):
     ctx.guard(rule_a, ctx, ix)
     ctx.guard(rule_b, ctx, ix)
     ctx.guard(rule_c, ctx, ix)
+    ctx.guard(rule_d, ctx, ix)
 
 
 def _concrete(f):
@@ -192,3 +193,32 @@ def rule_c(ctx, ix):
     calls = [x for x in calls_in(lp) if call_name(x) == 'contains' and 'roi_2d' in unparse(x.func)]
     ctx.ob(R, f.construct, 'membership is decided by the 2-d region on the projected coordinates', len(calls) == 1 and len(calls[0].args) == 2,
            detail='contains3d does not ask the 2-d region about the projected (x, y)', where=where(f, lp), nontrivial=False)
+
+
+def rule_d(ctx, ix):
+    """Containment answers are put back at the position of the point they belong to: flattening and un-flattening use one element order."""
+    R = 'C08.d'
+    ctx.describe(R, 'flatten / reshape pairs of the containment routines use the same (C) element order', floor=2)
+    n = 0
+    for mq in ('glue.utils.geometry', 'glue.core.roi'):
+        mod = ix.module(mq)
+        for node in ast.walk(mod.tree):
+            if not isinstance(node, ast.Call) or not isinstance(node.func, ast.Attribute):
+                continue
+            if node.func.attr not in ('ravel', 'flatten', 'reshape', 'asfortranarray') and unparse(node.func) != 'np.reshape':
+                continue
+            n += 1
+            order = [k.value for k in node.keywords if k.arg == 'order']
+            pos = node.args[0] if node.func.attr in ('ravel', 'flatten') and node.args else None
+            o = order[0] if order else pos
+            ok = o is None or (isinstance(o, ast.Constant) and o.value == 'C')
+            ok = ok and node.func.attr != 'asfortranarray'
+            ctx.ob(R, '%s `%s`' % (mq, unparse(node)[:60]), 'flattening and reshaping use C order', ok,
+                   detail='`%s` in %s flattens / reshapes in an element order other than C while the results are put back with a C-order '
+                          'reshape: for non-contiguous input the answers land at the positions of other points' % (unparse(node)[:80], mq),
+                   where='%s:%d' % (mod.relpath, node.lineno))
+    f = ix.func('glue.utils.geometry.points_inside_poly')
+    flat = [st for st in walk_no_nested(f.node) if isinstance(st, ast.Assign) and isinstance(st.value, ast.Attribute) and st.value.attr == 'flat']
+    rs = [c for c in calls_in(f.node) if call_name(c) == 'reshape']
+    ctx.ob(R, f.construct, 'the points are flattened and the answers reshaped back', (len(flat) == 2 or n > 0) and len(rs) >= 1,
+           detail='points_inside_poly no longer reshapes its answers back to the shape of the points', where=f.where)
